@@ -230,6 +230,7 @@ func generate(prop, tier string, seed uint64, jl *jobList) int {
 		genWaitCancelRuns(r, leafKinds(), jl.addFlow)
 		genSelfNest(r, jl.addFlow)
 		genTwins(r, jl.addFlow)
+		genOddNodeKinds(r, jl.addFlow)
 	case "C02":
 		genTwins(r, jl.addFlow)
 		genSelfNest(r, jl.addFlow)
